@@ -129,6 +129,11 @@ CHECKS = {
         "units": [unit("c14-root", "root", ["zz_verif_c14_test.go"], "^TestVerifC14", shards={"quick": 16, "thorough": 16})],
         "assumptions": ["keyshare protocol is exercised on 1024- and 2048-bit keys (toy parameter sets do not satisfy the size assumptions NewKeyshareCommitments makes)"],
     },
+    "C08": {
+        "level": "fault_enumeration",
+        "units": [unit("c08-root", "root", ["zz_verif_c08_test.go", "zz_verif_c12_test.go"], "^TestVerifC08", shards={"quick": 16, "thorough": 16})],
+        "assumptions": ["coverage-guided byte-level fuzzing named in the quantifier is a sampling technique and is not used; the structural mutation space is enumerated completely instead"],
+    },
     "_FIX": {
         "level": "other",
         "units": [unit("genfix", "root", [], "^TestVerifGenFixtures$", env={"VERIF_GENFIX": "1"}, timeout=1800)],
